@@ -48,7 +48,7 @@ octets, exactly 256 in about 3.7 %), all algorithm-identifier variants, and at m
 key, CRL issuer key, EE window, CRL window, EE is CA, EE revoked, other peer key, bit flips; oracle = accept iff none. \
 protocol: ProvisioningCms / PublicationCms create->to_bytes->decode->validate_at(now+d) for d inside/outside the +-5 min \
 window and wrong keys; independently wrapped protocol XML (same foreign generator) decodes to the same message. \
-non-trivial = extra attributes, or non-empty CRL, or any violated condition / tamper. Other routes (foreign, protocol/foreign): the DER messages also go through SignedMessage::decode(.., true); their unsigned outer layers are re-framed in BER (indefinite lengths; plus segmented eContent; long-form lengths) and go through SignedMessage / ProvisioningCms / PublicationCms; 20 % of the cases are placed at the wall clock (window edges >= 2 min away) and validate() must agree with validate_at(now) - all with the same verdict as decode(.., false) + validate_at.";
+non-trivial = extra attributes, or non-empty CRL, or any violated condition / tamper. Other routes (foreign, protocol/foreign): the DER messages also go through SignedMessage::decode(.., true); their unsigned outer layers are re-framed in BER (indefinite lengths; plus segmented eContent; long-form lengths) and go through SignedMessage / ProvisioningCms / PublicationCms; 20 % of the cases are placed at the wall clock (window edges >= 2 min away) and validate() must agree with validate_at(now) - all with the same verdict as decode(.., false) + validate_at. foreign also permutes the extensions of the EE certificate and puts crlEntryExtensions (reason code, invalidity date) on revoked entries; digest faults include right-length values differing in two octets (XOR-cancelling / exchanged).";
 
 fn key_info(idx: usize) -> PublicKey {
     keys::pool().infos[idx % POOL_SIZE].clone()
